@@ -30,6 +30,10 @@ impl<T: CoordsFloat> CMap3<T> {
                 self.beta_transac::<0>(trans, rside)?,
             );
         }
+        // the left face is closed: the right one must close after as many sides
+        if lside == ld && rside != rd {
+            abort(LinkError::AsymmetricalFaces(ld, rd))?;
+        }
         // the face was open, so we need to cover the other direction
         // for meshes, we should be working on complete faces at all times,
         // so branch prediction will hopefully save use
